@@ -166,6 +166,11 @@ func runC19(c *Ctx, r *Report, tier string) {
 		}
 		if k, ok := constStr(call.Call.Args[1]); ok {
 			read[k] = append(read[k], n)
+		} else if keys, ok := c.constArgsOfParam(call.Call.Args[1]); ok {
+			// the key is a parameter of a local helper: every call of the helper passes a constant
+			for _, k := range keys {
+				read[k] = append(read[k], n)
+			}
 		} else {
 			r.Undec("KEYS", c.fname(fn), "tag key argument", c.ipos(in), "non-constant key "+c.term(call.Call.Args[1]))
 		}
@@ -280,9 +285,18 @@ func runC19(c *Ctx, r *Report, tier string) {
 			for _, in := range b.Instrs {
 				if stI, ok := in.(*ssa.Store); ok {
 					if _, isFV := stI.Addr.(*ssa.FreeVar); isFV {
-						nS++
-						if !strings.HasPrefix(c.term(stI.Val), "call:newErrorf(ErrDuplicatedFlag") {
-							okS = false
+						for _, o := range c.originsOf(stI.Val, stI) {
+							switch {
+							case strings.HasPrefix(o.Term, "call:newErrorf(ErrDuplicatedFlag"):
+								nS++
+							case isConstNil(o.Val):
+								// a helper's "no duplicate" answer: never stored when the store requires a non-nil value
+								if _, req := c.Requires(dupCl, isInstr(stI), litIs("nonnil("+c.term(stI.Val)+")", true), nil); !req {
+									okS = false
+								}
+							default:
+								okS = false
+							}
 						}
 					}
 				}
@@ -591,4 +605,37 @@ func (c *Ctx) modelRules(r *Report, ss *ssa.Function) {
 			r.Check(c.term(a[1]) == get("group") && c.term(a[2]) == get("description"), "MODEL", gn, "Group name/description", c.ipos(in), "AddGroup(Get(group), Get(description), …)", "AddGroup receives "+trunc(c.term(a[1])+", "+c.term(a[2]), 120))
 		}
 	}
+}
+
+// constArgsOfParam: v is a parameter of a new helper (function or directly-called closure) and every
+// call of that helper passes a string constant for it: the constants.
+func (c *Ctx) constArgsOfParam(v ssa.Value) ([]string, bool) {
+	p, ok := v.(*ssa.Parameter)
+	if !ok || !c.isNew(p.Parent()) {
+		return nil, false
+	}
+	fn := p.Parent()
+	idx := -1
+	for i, q := range fn.Params {
+		if q == p {
+			idx = i
+		}
+	}
+	sites, asValue := c.callersOf(fn)
+	if idx < 0 || len(asValue) != 0 || len(sites) == 0 {
+		return nil, false
+	}
+	var out []string
+	for _, s := range sites {
+		args := s.Call.Common().Args
+		if idx >= len(args) {
+			return nil, false
+		}
+		k, ok := constStr(args[idx])
+		if !ok {
+			return nil, false
+		}
+		out = append(out, k)
+	}
+	return out, true
 }
